@@ -58,6 +58,14 @@ class Ctx:
         self.tier = tier
         t0 = time.time()
         mirdoc, shape, hh, secs = F.load()
+        # functions that were only renamed / moved since the tables were reviewed are analysed under their reviewed names
+        from . import fnrename as FR
+        self.renamed = {}
+        if not mirdoc.get("_renamed_applied"):
+            al = FR.aliases(mirdoc, FR.load_table(VERIF))
+            FR.apply(mirdoc, shape, al)
+            mirdoc["_renamed_applied"] = al
+        self.renamed = mirdoc.get("_renamed_applied") or {}
         self.P = M.Program(mirdoc)
         self.shape = shape
         self.tree = hh
@@ -159,7 +167,11 @@ def finish(res, tier, t0, level="other"):
         "wall_s": round(time.time() - t0, 3),
         "violations": len(real),
     }
-    with open(os.path.join(VERIF, "evidence", res.pid + ".json"), "w") as fh:
+    # runs against a scratch tree (VERIF_REPO, used by selftest and the seed/refactor tools) do not overwrite the
+    # evidence of /repo
+    evdir = os.path.join(VERIF, "evidence") if not os.environ.get("VERIF_REPO") else os.path.join(outdir, "scratch-evidence")
+    os.makedirs(evdir, exist_ok=True)
+    with open(os.path.join(evdir, res.pid + ".json"), "w") as fh:
         json.dump(ev, fh, indent=1)
     if code == 0:
         print("%s: OK  (%d rule instances over tree %s; %d known finding(s) listed; %.1fs)" % (
